@@ -1,1 +1,38 @@
+"""K9 - utils / date-time format selection (C13)"""
 from contracts import contract
+
+contract(
+    'hl7apy.utils:_get_date_format',
+    sig={'value': 'str'},
+    returns='str',
+    ensures=[
+        ('y', 'implies(strlen(value) == 4, result == "%Y")'),
+        ('ym', 'implies(strlen(value) == 6, result == "%Y%m")'),
+        ('ymd', 'implies(strlen(value) == 8, result == "%Y%m%d")'),
+    ],
+    raises={'ValueError': {'when': 'strlen(value) != 4 and strlen(value) != 6 and strlen(value) != 8',
+                           'must': 'strlen(value) != 4 and strlen(value) != 6 and strlen(value) != 8'}},
+    modifies=[],
+    properties=['C13'],
+)
+
+contract(
+    'hl7apy.utils:_get_timestamp_format',
+    sig={'value': 'str'},
+    returns='tuple[str,int]',
+    ensures=[
+        ('h', 'implies(strlen(value) == 2, result[0] == "%H" and result[1] == 4)'),
+        ('hm', 'implies(strlen(value) == 4, result[0] == "%H%M" and result[1] == 4)'),
+        ('hms', 'implies(strlen(value) == 6, result[0] == "%H%M%S" and result[1] == 4)'),
+        ('frac', 'implies(8 <= strlen(value) and strlen(value) <= 11, '
+                 'result[0] == "%H%M%S.%f" and result[1] == strlen(value) - 7 and char_at(value, 6) == ".")'),
+        ('precision_range', '1 <= result[1] and result[1] <= 4'),
+    ],
+    raises={'ValueError': {
+        'when': 'not (strlen(value) == 2 or strlen(value) == 4 or strlen(value) == 6 or '
+                '(8 <= strlen(value) and strlen(value) <= 11 and char_at(value, 6) == "."))',
+        'must': 'not (strlen(value) == 2 or strlen(value) == 4 or strlen(value) == 6 or '
+                '(8 <= strlen(value) and strlen(value) <= 11 and char_at(value, 6) == "."))'}},
+    modifies=[],
+    properties=['C13'],
+)
